@@ -124,36 +124,114 @@
 */
 /* VERIF-UNIT
 {
- "name": "ht_dirhash_md4_b40",
+ "name": "ht_dirhash_legacy",
  "backend": "cvc5",
  "props": ["C10"],
- "level": "B(40)",
+ "level": "U/k",
  "tier": "wip",
  "harness": "h_dirhash",
- "defines": ["HT_CAP=40", "HT_ALG=1"],
- "unwind": 34,
- "unwind_reason": "names capped at 40 bytes = 2 chunks of 32 (bounded stand-in); str2hashbuf <= 32 iterations, spec loops <= 24; unwinding assertions on",
- "timeout": 300,
- "functions": ["lib/ext2fs/dirhash.c:ext2fs_dirhash", "lib/ext2fs/dirhash.c:str2hashbuf", "lib/ext2fs/dirhash.c:halfMD4Transform"],
- "assumes": ["0 <= len <= 40 (BOUNDED)", "version is HALF_MD4 or HALF_MD4_UNSIGNED", "names whose major hash is the reserved value 0xfffffffe are excluded from the equality with the kernel value (finding C10_ht_dirhash_eof, unit ht_dirhash_eof)"],
- "native": true
+ "replace": ["dx_hack_hash"],
+ "defines": ["HT_CAP=255", "HT_ALG=0"],
+ "unwind": 257,
+ "unwind_reason": "the specification hh_legacy folds one round per name byte, at most 255 (format constant); ext2fs_dirhash itself only loops over the 4 seed words; unwinding assertions on",
+ "timeout": 600,
+ "functions": ["lib/ext2fs/dirhash.c:ext2fs_dirhash"],
+ "assumes": ["0 <= len <= 255: ext4 name_len is an 8-bit on-disk field (callers pass name_len or strlen of a name that fits a dirent)", "version is LEGACY or LEGACY_UNSIGNED", "the helpers are replaced by their contracts, which are enforced on the real helpers by the units ht_tea_transform, ht_halfmd4_transform, ht_str2hashbuf_tea/_md4, ht_dx_hack_hash_*", "names whose major hash is the reserved value 0xfffffffe are excluded from the equality with the kernel value (finding C10_ht_dirhash_eof, unit ht_dirhash_eof)", "seed pointer NULL or 4 arbitrary words; ret_minor_hash NULL or valid"],
+ "native": false
 }
 */
 /* VERIF-UNIT
 {
- "name": "ht_dirhash_tea_b40",
+ "name": "ht_dirhash_md4",
  "backend": "cvc5",
  "props": ["C10"],
- "level": "B(40)",
+ "level": "U/k",
  "tier": "wip",
  "harness": "h_dirhash",
- "defines": ["HT_CAP=16", "HT_ALG=2"],
+ "replace": ["str2hashbuf", "halfMD4Transform"],
+ "defines": ["HT_CAP=255", "HT_ALG=1"],
+ "cbmc_flags": ["--object-bits", "12"],
+ "unwind": 10,
+ "unwind_reason": "a name of at most 255 bytes has at most 8 chunks of 32 bytes; specification loops: 8 words x 4 bytes, 3 rounds x 8 steps; unwinding assertions on",
+ "timeout": 600,
+ "functions": ["lib/ext2fs/dirhash.c:ext2fs_dirhash"],
+ "assumes": ["0 <= len <= 255: ext4 name_len is an 8-bit on-disk field (callers pass name_len or strlen of a name that fits a dirent)", "version is HALF_MD4 or HALF_MD4_UNSIGNED", "the helpers are replaced by their contracts, which are enforced on the real helpers by the units ht_tea_transform, ht_halfmd4_transform, ht_str2hashbuf_tea/_md4, ht_dx_hack_hash_*", "names whose major hash is the reserved value 0xfffffffe are excluded from the equality with the kernel value (finding C10_ht_dirhash_eof, unit ht_dirhash_eof)", "seed pointer NULL or 4 arbitrary words; ret_minor_hash NULL or valid"],
+ "native": false
+}
+*/
+/* VERIF-UNIT
+{
+ "name": "ht_dirhash_tea",
+ "backend": "cvc5",
+ "props": ["C10"],
+ "level": "U/k",
+ "tier": "wip",
+ "harness": "h_dirhash",
+ "replace": ["str2hashbuf", "TEA_transform"],
+ "defines": ["HT_CAP=255", "HT_ALG=2"],
+ "cbmc_flags": ["--object-bits", "12"],
+ "unwind": 18,
+ "unwind_reason": "a name of at most 255 bytes has at most 16 chunks of 16 bytes; specification loops: 4 words x 4 bytes, 16 TEA rounds; unwinding assertions on",
+ "timeout": 600,
+ "functions": ["lib/ext2fs/dirhash.c:ext2fs_dirhash"],
+ "assumes": ["0 <= len <= 255: ext4 name_len is an 8-bit on-disk field (callers pass name_len or strlen of a name that fits a dirent)", "version is TEA or TEA_UNSIGNED", "the helpers are replaced by their contracts, which are enforced on the real helpers by the units ht_tea_transform, ht_halfmd4_transform, ht_str2hashbuf_tea/_md4, ht_dx_hack_hash_*", "names whose major hash is the reserved value 0xfffffffe are excluded from the equality with the kernel value (finding C10_ht_dirhash_eof, unit ht_dirhash_eof)", "seed pointer NULL or 4 arbitrary words; ret_minor_hash NULL or valid"],
+ "native": false
+}
+*/
+/* VERIF-UNIT
+{
+ "name": "ht_dirhash_loop_legacy",
+ "backend": "cvc5",
+ "props": ["C10"],
+ "level": "U",
+ "tier": "wip",
+ "harness": "h_dirhash_loop",
+ "loop_contracts": true,
+ "defines": ["HT_LOOPS=1", "HT_ALG=0"],
+ "unwind": 6,
+ "unwind_reason": "the per-byte loop of dx_hack_hash is closed by an in-place loop contract (named anchor in lib/ext2fs/dirhash.c, hooks-pending/htree.diff); only the 4-word seed loop is unwound; unwinding assertions on",
+ "timeout": 600,
+ "functions": ["lib/ext2fs/dirhash.c:ext2fs_dirhash", "lib/ext2fs/dirhash.c:dx_hack_hash"],
+ "assumes": ["0 <= len <= 255: ext4 name_len is an 8-bit on-disk field; the name buffer is a 256-byte object", "version is LEGACY or LEGACY_UNSIGNED", "SHAPE OF THE SPECIFICATION: the kernel hash is a fold of its per-byte round (HH_LEGACY_ROUND of specs/htree_hash.h) over the name; the fold is evaluated by ghost statements in lock step with the real loop, and the loop invariant says that the code's (hash0, hash1) equal the fold's and that the cursors are at the fold's position; the closed function hh_legacy() is compared directly on bounded names (unit ht_dx_hack_hash_b24)", "names whose major hash is the reserved value 0xfffffffe are excluded from the equality with the kernel value (finding C10_ht_dirhash_eof, unit ht_dirhash_eof)", "seed pointer NULL or 4 arbitrary words; ret_minor_hash NULL or valid", "NEEDS the hook hooks-pending/htree.diff (named loop anchors in dirhash.c)"],
+ "native": false
+}
+*/
+/* VERIF-UNIT
+{
+ "name": "ht_dirhash_loop_md4",
+ "backend": "cvc5",
+ "replace": ["str2hashbuf"],
+ "props": ["C10"],
+ "level": "U",
+ "tier": "wip",
+ "harness": "h_dirhash_loop",
+ "loop_contracts": true,
+ "defines": ["HT_LOOPS=1", "HT_ALG=1"],
  "unwind": 34,
- "unwind_reason": "names capped at 40 bytes = 3 chunks of 16 (bounded stand-in); unwinding assertions on",
- "timeout": 300,
+ "unwind_reason": "the chunk loop of the real code is closed by an in-place loop contract (named anchor in lib/ext2fs/dirhash.c, hooks-pending/htree.diff); what is unwound are constant-bound loops: 4 seed words, str2hashbuf <= 32 bytes / 8 words, TEA 16 rounds, specification 3 x 8 MD4 steps; unwinding assertions on",
+ "timeout": 600,
+ "functions": ["lib/ext2fs/dirhash.c:ext2fs_dirhash", "lib/ext2fs/dirhash.c:str2hashbuf", "lib/ext2fs/dirhash.c:halfMD4Transform"],
+ "assumes": ["0 <= len <= 255: ext4 name_len is an 8-bit on-disk field; the name buffer is a 256-byte object", "version is HALF_MD4 or HALF_MD4_UNSIGNED", "SHAPE OF THE SPECIFICATION: the kernel hash is a fold of its per-chunk step (hh_step / HH_LEGACY_ROUND of specs/htree_hash.h) over the name; the fold is evaluated by ghost statements in lock step with the real loop, and the loop invariant says that the code's state equals the fold's state and that the cursor/remaining length are those of the kernel loop; the closed function hh_dirhash() is compared directly only on bounded names (units ht_dirhash_*_b*)", "names whose major hash is the reserved value 0xfffffffe are excluded from the equality with the kernel value (finding C10_ht_dirhash_eof, unit ht_dirhash_eof)", "seed pointer NULL or 4 arbitrary words; ret_minor_hash NULL or valid", "NEEDS the hook hooks-pending/htree.diff (named loop anchors in dirhash.c)"],
+ "native": false
+}
+*/
+/* VERIF-UNIT
+{
+ "name": "ht_dirhash_loop_tea",
+ "backend": "cvc5",
+ "replace": ["str2hashbuf"],
+ "props": ["C10"],
+ "level": "U",
+ "tier": "wip",
+ "harness": "h_dirhash_loop",
+ "loop_contracts": true,
+ "defines": ["HT_LOOPS=1", "HT_ALG=2"],
+ "unwind": 34,
+ "unwind_reason": "the chunk loop of the real code is closed by an in-place loop contract (named anchor in lib/ext2fs/dirhash.c, hooks-pending/htree.diff); what is unwound are constant-bound loops: 4 seed words, str2hashbuf <= 32 bytes / 8 words, TEA 16 rounds, specification 3 x 8 MD4 steps; unwinding assertions on",
+ "timeout": 600,
  "functions": ["lib/ext2fs/dirhash.c:ext2fs_dirhash", "lib/ext2fs/dirhash.c:str2hashbuf", "lib/ext2fs/dirhash.c:TEA_transform"],
- "assumes": ["0 <= len <= 40 (BOUNDED)", "version is TEA or TEA_UNSIGNED", "names whose major hash is the reserved value 0xfffffffe are excluded from the equality with the kernel value (finding C10_ht_dirhash_eof, unit ht_dirhash_eof)"],
- "native": true
+ "assumes": ["0 <= len <= 255: ext4 name_len is an 8-bit on-disk field; the name buffer is a 256-byte object", "version is TEA or TEA_UNSIGNED", "SHAPE OF THE SPECIFICATION: the kernel hash is a fold of its per-chunk step (hh_step / HH_LEGACY_ROUND of specs/htree_hash.h) over the name; the fold is evaluated by ghost statements in lock step with the real loop, and the loop invariant says that the code's state equals the fold's state and that the cursor/remaining length are those of the kernel loop; the closed function hh_dirhash() is compared directly only on bounded names (units ht_dirhash_*_b*)", "names whose major hash is the reserved value 0xfffffffe are excluded from the equality with the kernel value (finding C10_ht_dirhash_eof, unit ht_dirhash_eof)", "seed pointer NULL or 4 arbitrary words; ret_minor_hash NULL or valid", "NEEDS the hook hooks-pending/htree.diff (named loop anchors in dirhash.c)"],
+ "native": false
 }
 */
 #include "verif.h"
@@ -184,55 +262,88 @@ struct in_hash {
 struct in_hash IN;
 #include "verif_in.h"
 
+#ifdef HT_LOOPS
+/*
+ * In-place loop contracts (named anchors in lib/ext2fs/dirhash.c).  Ghost registers:
+ *   verif_g0..g3  state of the specification's fold (chunk loops: the four buf words; legacy: g0 = hash0, g1 = hash1)
+ *   verif_g4      number of name bytes the fold has consumed        verif_g5   length of the name
+ * The ghost statement at the top of the body re-anchors the cursor(s) at the value the invariant gives (asserted to be
+ * the identity) and advances the fold by one step of the KERNEL definition on the chunk / byte the real body is about to
+ * consume.
+ */
+#ifndef VERIF_NATIVE
+unsigned long long verif_g0, verif_g1, verif_g2, verif_g3, verif_g4, verif_g5, verif_g6, verif_g7;
+#endif
+#define HT_CHUNK_INV(CH) \
+	__CPROVER_assigns(len, p, __CPROVER_object_whole(in), __CPROVER_object_whole(buf), verif_g0, verif_g1, verif_g2, verif_g3, verif_g4) \
+	__CPROVER_loop_invariant(verif_g5 <= 255 && verif_g4 <= 256 && (verif_g4 & ((CH) - 1)) == 0) \
+	__CPROVER_loop_invariant(len == (int)verif_g5 - (int)verif_g4 && p == name + verif_g4) \
+	__CPROVER_loop_invariant(buf[0] == (__u32)verif_g0 && buf[1] == (__u32)verif_g1 && buf[2] == (__u32)verif_g2 && buf[3] == (__u32)verif_g3) \
+	__CPROVER_decreases(len)
+#define HT_CHUNK_GHOST(CH) { \
+		__CPROVER_assert(p == name + verif_g4, "CHECK:cursor has its invariant value"); \
+		p = name + verif_g4; \
+		struct hh_state s_; \
+		s_.b[0] = (hh_u32)verif_g0; s_.b[1] = (hh_u32)verif_g1; s_.b[2] = (hh_u32)verif_g2; s_.b[3] = (hh_u32)verif_g3; \
+		s_ = hh_step(s_, version, (const unsigned char *)p, len); \
+		verif_g0 = s_.b[0]; verif_g1 = s_.b[1]; verif_g2 = s_.b[2]; verif_g3 = s_.b[3]; \
+		verif_g4 += (CH); \
+	}
+#define VERIF_INV_DIRHASH_MD4 HT_CHUNK_INV(32)
+#define VERIF_GHOST_DIRHASH_MD4 HT_CHUNK_GHOST(32)
+#define VERIF_INV_DIRHASH_TEA HT_CHUNK_INV(16)
+#define VERIF_GHOST_DIRHASH_TEA HT_CHUNK_GHOST(16)
+/* `while (len--)`: the invariant is evaluated before the decrement; unsigned_flag is 0 or 1 and only ONE of the two cursors moves */
+#define VERIF_INV_DX_HACK_HASH \
+	__CPROVER_assigns(len, ucp, scp, c, hash, hash0, hash1, verif_g0, verif_g1, verif_g4) \
+	__CPROVER_loop_invariant(verif_g5 <= 255 && verif_g4 <= verif_g5 && len == (int)verif_g5 - (int)verif_g4) \
+	__CPROVER_loop_invariant(ucp == (const unsigned char *)name + (unsigned_flag ? verif_g4 : 0)) \
+	__CPROVER_loop_invariant(scp == (const signed char *)name + (unsigned_flag ? 0 : verif_g4)) \
+	__CPROVER_loop_invariant(hash0 == (__u32)verif_g0 && hash1 == (__u32)verif_g1) \
+	__CPROVER_decreases(len)
+#define VERIF_GHOST_DX_HACK_HASH { \
+		__CPROVER_assert(ucp == (const unsigned char *)name + (unsigned_flag ? verif_g4 : 0) && \
+				 scp == (const signed char *)name + (unsigned_flag ? 0 : verif_g4), "CHECK:cursors have their invariant value"); \
+		ucp = (const unsigned char *)name + (unsigned_flag ? verif_g4 : 0); \
+		scp = (const signed char *)name + (unsigned_flag ? 0 : verif_g4); \
+		hh_u32 n_ = HH_LEGACY_ROUND((hh_u32)verif_g0, (hh_u32)verif_g1, HH_CHAR(name, verif_g4, unsigned_flag)); \
+		verif_g1 = (hh_u32)verif_g0; \
+		verif_g0 = n_; \
+		verif_g4++; \
+	}
+#endif
+
 #include "lib/ext2fs/dirhash.c"
 
-/* harness-owned objects the contracts talk about, and the ghost snapshot of buf taken before a call */
+/* harness-owned objects, and the ghost snapshot of buf taken before a call */
 static __u32 T_BUF[4];
 static __u32 T_IN[8];
 static struct hh_state g_old;
 
-static int tea_post(void)
-{
-	struct hh_state n = hh_tea(g_old, T_IN);
-	return T_BUF[0] == n.b[0] && T_BUF[1] == n.b[1] && T_BUF[2] == g_old.b[2] && T_BUF[3] == g_old.b[3];
-}
-
-static int md4_post(void)
-{
-	struct hh_state n = hh_md4(g_old, T_IN);
-	return T_BUF[0] == n.b[0] && T_BUF[1] == n.b[1] && T_BUF[2] == n.b[2] && T_BUF[3] == n.b[3];
-}
-
-#define OLD_IS_BUF (g_old.b[0] == T_BUF[0] && g_old.b[1] == T_BUF[1] && g_old.b[2] == T_BUF[2] && g_old.b[3] == T_BUF[3])
-
+/*
+ * Contracts of the helpers.  They are general (no reference to harness objects), so the same text is ENFORCED in the
+ * helper units and REPLACES the helper in the whole-function units.
+ */
+/* kernel TEA_transform: only buf[0] and buf[1] change (frame: buf[2], buf[3] are not assignable) */
 static void TEA_transform(__u32 buf[4], __u32 const in[])
-	REQUIRES(buf == T_BUF && in == T_IN && OLD_IS_BUF)
-	ENSURES(tea_post())
-	ASSIGNS(T_BUF[0], T_BUF[1]);
+	ENSURES(hh_tea_holds(OLD(buf[0]), OLD(buf[1]), in, buf[0], buf[1]))
+	ASSIGNS(buf[0], buf[1]);
 
 static void halfMD4Transform(__u32 buf[4], __u32 const in[])
-	REQUIRES(buf == T_BUF && in == T_IN && OLD_IS_BUF)
-	ENSURES(md4_post())
-	ASSIGNS(__CPROVER_object_whole(T_BUF));
-
-static ext2_dirhash_t dx_hack_hash(const char *name, int len, int unsigned_flag)
-	REQUIRES(name == (const char *)IN.name && len >= 0 && len <= HT_CAP && (unsigned_flag == 0 || unsigned_flag == 1))
-	ENSURES(RET == hh_legacy(IN.name, len, unsigned_flag))
-	ASSIGNS();
-
-static int s2hb_post(int len, int num, int uns)
-{
-	int ok = 1;
-	for (int w = 0; w < HT_NUM; w++)
-		if (T_IN[w] != hh_word(IN.name, len, num, w, uns))
-			ok = 0;
-	return ok;
-}
+	ENSURES(hh_md4_holds(OLD(buf[0]), OLD(buf[1]), OLD(buf[2]), OLD(buf[3]), in, buf))
+	ASSIGNS(buf[0], buf[1], buf[2], buf[3]);
 
 static void str2hashbuf(const char *msg, int len, __u32 *buf, int num, int unsigned_flag)
-	REQUIRES(msg == (const char *)IN.name && buf == T_IN && num == HT_NUM && len >= 0 && (unsigned_flag == 0 || unsigned_flag == 1))
-	ENSURES(s2hb_post(len, num, unsigned_flag))
-	ASSIGNS(__CPROVER_object_whole(T_IN));
+	REQUIRES((num == 4 || num == 8) && len >= 0 && (unsigned_flag == 0 || unsigned_flag == 1))
+	ENSURES(hh_words_hold((const unsigned char *)msg, len, num, unsigned_flag, buf))
+	ASSIGNS(__CPROVER_object_upto(buf, (__CPROVER_size_t)num * 4));
+
+#ifndef HT_LOOPS
+static ext2_dirhash_t dx_hack_hash(const char *name, int len, int unsigned_flag)
+	REQUIRES(len >= 0 && len <= HT_CAP && (unsigned_flag == 0 || unsigned_flag == 1))
+	ENSURES(RET == hh_legacy((const unsigned char *)name, len, unsigned_flag))
+	ASSIGNS();
+#endif
 
 static void load_buf(void)
 {
@@ -249,7 +360,7 @@ void h_tea(void)
 	LOAD_IN();
 	load_buf();
 	TEA_transform(T_BUF, T_IN);
-	CHECK(tea_post(), "TEA_transform equals the kernel's TEA_transform; buf[2], buf[3] untouched");
+	CHECK(hh_tea_holds(g_old.b[0], g_old.b[1], T_IN, T_BUF[0], T_BUF[1]) && T_BUF[2] == g_old.b[2] && T_BUF[3] == g_old.b[3], "TEA_transform equals the kernel's TEA_transform; buf[2], buf[3] untouched");
 	REACH("end");
 }
 
@@ -258,7 +369,7 @@ void h_md4(void)
 	LOAD_IN();
 	load_buf();
 	halfMD4Transform(T_BUF, T_IN);
-	CHECK(md4_post(), "halfMD4Transform equals the kernel's half_md4_transform");
+	CHECK(hh_md4_holds(g_old.b[0], g_old.b[1], g_old.b[2], g_old.b[3], T_IN, T_BUF), "halfMD4Transform equals the kernel's half_md4_transform");
 	REACH("end");
 }
 
@@ -286,7 +397,8 @@ void h_s2hb(void)
 	load_buf();
 	ASSUME(IN.len >= 0 && (IN.uns == 0 || IN.uns == 1));
 	str2hashbuf((const char *)IN.name, IN.len, T_IN, HT_NUM, IN.uns);
-	CHECK(s2hb_post(IN.len, HT_NUM, IN.uns), "str2hashbuf equals the kernel's str2hashbuf_signed / _unsigned, every output word");
+	CHECK(hh_words_hold(IN.name, IN.len, HT_NUM, IN.uns, T_IN), "str2hashbuf equals the kernel's str2hashbuf_signed / _unsigned, every output word");
+	CHECK(HT_NUM == 8 || (T_IN[4] == IN.in[4] && T_IN[7] == IN.in[7]), "nothing behind the num output words is written");
 	if (IN.len > HT_NUM * 4) REACH("long name: chunk full");
 	if (IN.len < HT_NUM * 4 && (IN.len & 3) == 1 && IN.name[0] >= 128 && !IN.uns) REACH("partial word, signed high byte");
 	REACH("end");
@@ -301,7 +413,8 @@ void h_s2hb(void)
 #ifndef HT_ALG
 #define HT_ALG 1
 #endif
-static void dirhash_common(int check_clamp)
+/* `version` is a CONSTANT at every call of this function: symbolic execution then follows only the selected algorithm */
+static void dirhash_common(int version, int check_clamp)
 {
 	ext2_dirhash_t h = IN.junk_hash, mh = IN.junk_minor;
 	hh_u32 sh, sm;
@@ -309,20 +422,9 @@ static void dirhash_common(int check_clamp)
 	int sr;
 
 	ASSUME(IN.len >= 0 && IN.len <= HT_CAP);
-	/* constant pointers per case (no NULL-or-object pointers inside the code under test) */
-	if (IN.has_seed) {
-		if (IN.want_minor)
-			r = ext2fs_dirhash(IN.version, (const char *)IN.name, IN.len, IN.seed, &h, &mh);
-		else
-			r = ext2fs_dirhash(IN.version, (const char *)IN.name, IN.len, IN.seed, &h, NULL);
-		sr = hh_dirhash(IN.version, IN.name, IN.len, IN.seed, &sh, &sm);
-	} else {
-		if (IN.want_minor)
-			r = ext2fs_dirhash(IN.version, (const char *)IN.name, IN.len, NULL, &h, &mh);
-		else
-			r = ext2fs_dirhash(IN.version, (const char *)IN.name, IN.len, NULL, &h, NULL);
-		sr = hh_dirhash(IN.version, IN.name, IN.len, NULL, &sh, &sm);
-	}
+	/* seed and minor-hash pointers are NULL or valid; they are dereferenced only outside the chunk loops */
+	r = ext2fs_dirhash(version, (const char *)IN.name, IN.len, IN.has_seed ? IN.seed : NULL, &h, IN.want_minor ? &mh : NULL);
+	sr = hh_dirhash(version, IN.name, IN.len, IN.has_seed ? IN.seed : NULL, &sh, &sm);
 	CHECK((r == 0) == (sr == 0), "supported versions are exactly legacy, half-MD4, TEA and their unsigned variants");
 	CHECK(r == 0 || (r == EXT2_ET_DIRHASH_UNSUPP && h == 0), "unsupported version: EXT2_ET_DIRHASH_UNSUPP and hash 0");
 	if (r == 0) {
@@ -341,13 +443,75 @@ void h_dirhash(void)
 	LOAD_IN();
 #if HT_ALG == 0
 	ASSUME(IN.version == HH_LEGACY || IN.version == HH_LEGACY_UNSIGNED);
+	if (IN.version == HH_LEGACY) dirhash_common(HH_LEGACY, 0); else dirhash_common(HH_LEGACY_UNSIGNED, 0);
 #elif HT_ALG == 1
 	ASSUME(IN.version == HH_HALF_MD4 || IN.version == HH_HALF_MD4_UNSIGNED);
+	if (IN.version == HH_HALF_MD4) dirhash_common(HH_HALF_MD4, 0); else dirhash_common(HH_HALF_MD4_UNSIGNED, 0);
 #elif HT_ALG == 2
 	ASSUME(IN.version == HH_TEA || IN.version == HH_TEA_UNSIGNED);
+	if (IN.version == HH_TEA) dirhash_common(HH_TEA, 0); else dirhash_common(HH_TEA_UNSIGNED, 0);
 #endif
-	dirhash_common(0);
-	if (IN.len > 32 && IN.has_seed && IN.want_minor) REACH("more than one chunk, seeded");
-	if (!IN.has_seed && !IN.want_minor) REACH("no seed pointer, no minor");
+	if (IN.len > 32 && IN.has_seed && IN.want_minor && IN.version < 3) REACH("more than one chunk, seeded, signed variant");
+	if (!IN.has_seed && !IN.want_minor && IN.version >= 3) REACH("no seed pointer, no minor, unsigned variant");
 	REACH("end");
 }
+
+#ifdef HT_LOOPS
+/*
+ * ext2fs_dirhash with its loops closed by the in-place contracts above: every name length 0..255.
+ * The harness initialises the fold with the kernel's seed rule (hh_seed) and the kernel's legacy constants; the loop invariant's
+ * base case then proves that the code starts from the same state.
+ */
+static void dirhash_loop_common(int version)
+{
+	ext2_dirhash_t h = IN.junk_hash, mh = IN.junk_minor;
+	errcode_t r;
+	struct hh_state s0;
+	unsigned chunk = (version == HH_TEA || version == HH_TEA_UNSIGNED) ? 16 : 32;
+	int legacy = (version == HH_LEGACY || version == HH_LEGACY_UNSIGNED);
+
+	ASSUME(IN.len >= 0 && IN.len <= 255);
+	s0 = hh_seed(IN.has_seed ? IN.seed : NULL);
+	if (legacy) {
+		verif_g0 = HH_LEGACY_H0; verif_g1 = HH_LEGACY_H1; verif_g2 = 0; verif_g3 = 0;
+	} else {
+		verif_g0 = s0.b[0]; verif_g1 = s0.b[1]; verif_g2 = s0.b[2]; verif_g3 = s0.b[3];
+	}
+	verif_g4 = 0;
+	verif_g5 = IN.len;
+	r = ext2fs_dirhash(version, (const char *)IN.name, IN.len, IN.has_seed ? IN.seed : NULL, &h, IN.want_minor ? &mh : NULL);
+	CHECK(r == 0, "supported version");
+	if (legacy) {
+		CHECK(verif_g4 == (unsigned)IN.len, "the fold has consumed exactly the len bytes of the name");
+		CHECK(h == (((hh_u32)verif_g0 << 1) & ~1u) || (((hh_u32)verif_g0 << 1) & ~1u) == (HH_EOF_32BIT << 1),
+		      "major hash: kernel dx_hack_hash fold, << 1 (reserved value 0xfffffffe aside)");
+		CHECK(!IN.want_minor || mh == 0, "legacy: minor hash 0");
+	} else {
+		hh_u32 maj = (chunk == 16) ? (hh_u32)verif_g0 : (hh_u32)verif_g1;
+		hh_u32 min = (chunk == 16) ? (hh_u32)verif_g1 : (hh_u32)verif_g2;
+		CHECK(verif_g4 == (((unsigned)IN.len + chunk - 1) / chunk) * chunk, "the fold has consumed exactly the chunks at offsets 0, C, 2C, ... < len");
+		CHECK(h == (maj & ~1u) || (maj & ~1u) == (HH_EOF_32BIT << 1), "major hash: word of the kernel fold, bit 0 cleared (reserved value 0xfffffffe aside)");
+		CHECK(!IN.want_minor || mh == min, "minor hash: word of the kernel fold");
+	}
+	CHECK((h & 1) == 0, "bit 0 of the major hash is clear");
+	CHECK(IN.want_minor || mh == IN.junk_minor, "no minor hash requested: nothing stored");
+}
+
+void h_dirhash_loop(void)
+{
+	LOAD_IN();
+#if HT_ALG == 0
+	ASSUME(IN.version == HH_LEGACY || IN.version == HH_LEGACY_UNSIGNED);
+	if (IN.version == HH_LEGACY) dirhash_loop_common(HH_LEGACY); else dirhash_loop_common(HH_LEGACY_UNSIGNED);
+#elif HT_ALG == 1
+	ASSUME(IN.version == HH_HALF_MD4 || IN.version == HH_HALF_MD4_UNSIGNED);
+	if (IN.version == HH_HALF_MD4) dirhash_loop_common(HH_HALF_MD4); else dirhash_loop_common(HH_HALF_MD4_UNSIGNED);
+#else
+	ASSUME(IN.version == HH_TEA || IN.version == HH_TEA_UNSIGNED);
+	if (IN.version == HH_TEA) dirhash_loop_common(HH_TEA); else dirhash_loop_common(HH_TEA_UNSIGNED);
+#endif
+	if (IN.len > 200 && IN.has_seed && IN.want_minor && IN.version < 3) REACH("long name, seeded, signed variant");
+	if (IN.len == 0 && !IN.has_seed && !IN.want_minor && IN.version >= 3) REACH("empty name, no seed pointer, no minor, unsigned variant");
+	REACH("end");
+}
+#endif
